@@ -4,25 +4,27 @@ P = dict(
     memcheck_stride=dict(quick=100, thorough=40),
     level='exploration',
     technique='runtime monitoring: one check macro per fresh TestTestingFixture; getFailureCount()/getCheckCount() compared with an independently evaluated predicate '
-              '(__int128 integer values, libc strcmp/strncmp/strstr/memcmp, ASCII fold, unbounded two\'s-complement AND, exact TwoSum comparison for doubles); '
+              '(__int128 integer values, libc strcmp/strncmp/strstr/memcmp, ASCII fold, unbounded two\'s-complement AND, exact TwoSum comparison for doubles in extended-real order, i.e. an infinite distance is within an infinite tolerance only; the exported predicate doubles_equal() is called on the special-class triples as a second observation, counted not judged); '
               '8-bit checks enumerated over all 256x256 pairs, every other integer/relational/double/string/pointer/bit check over the complete boundary lattice or table; '
               'macro-hygiene sections: every check macro and C-interface macro is also handed operands spelled as unparenthesised loosely binding expressions, judged by the same oracles on the values of the expressions; ASan/UBSan build',
     rule='case = (check macro incl. _TEXT and C-language variants and operand type, operand values); 200 distinct check instantiations. '
          'Exhaustive sections: 6 byte checks x 256^2; 59 integer checks x all pairs of the boundary lattice of their type (0, +-1, +-2, 2^k-1..2^k+1 for k=7,8,15,16, 2^k-2..2^k+2 for k=31,32,63,64, negatives, type min/max); '
-         'CHECK_COMPARE x 6 operators x lattice pairs (integers and doubles); doubles 25 values^2 x 17 tolerances; 29 C strings (NULL, "", case/prefix/high-bit variants)^2 x 13 string checks (STRNCMP with 8 lengths incl. SIZE_MAX); '
+         'CHECK_COMPARE x 6 operators x lattice pairs (integers and doubles); doubles 25 values^2 x 17 tolerances; double classes (+-0, +-subnormal, +-1, +-DBL_MAX, +-inf, NaN)^2 x tolerance classes (0, subnormal, 1, DBL_MAX, +inf, NaN, -1, -inf) x all 5 tolerance-taking checks incl. _TEXT, C and float variants as a complete cross product (section doubles_special); 29 C strings (NULL, "", case/prefix/high-bit variants)^2 x 13 string checks (STRNCMP with 8 lengths incl. SIZE_MAX); '
          'memory blocks NULL/equal/differing x size 0,1,n in exact-size heap blocks; masked bits 17 checks x patterns x flipped bit x 24 masks; pointer/function-pointer value tables; boolean conditions of 5 operand kinds, FAIL*, CHECK_THROWS x 6 thrown kinds. '
          'Random sections add related operand pairs (equal, adjacent, same low bytes, one flipped bit, case flips, prefixes, needle-in-haystack, tolerance at/next to the distance). '
          'Macro-hygiene sections (hygiene_int/bits/doubles/pointers, random): each operand of each of 104 check instantiations (all integer, BYTES, ENUMS, boolean, relational, bits, doubles, string, memory, pointer, function-pointer macros and every CHECK_*_C* macro) is written as a comma-free expression '
          'x | y, x ^ y, x & y, s ? x : y, x + y, x - y (doubles), x || y, x && y, x == y, x < y, p + offset (pointers), one operand at a time and mixed, incl. the mask / length / tolerance operand; components are generated so that the expression has a chosen value (related pairs: equal, same low bytes, one bit, adjacent; ~55% predicate true), '
          'the value is cross-checked by evaluating the same expression text outside the macro, and the verdict must be the predicate on those values (key <verdict>:<check>:expression-operand). '
-         'Verdict judged: failures == [predicate false], failures <= 1, check count == 1 (0 for a passing CHECK_COMPARE). Not judged (counted as *_unjudged): negative/NaN tolerance, infinite distance vs infinite tolerance, '
+         'Verdict judged: failures == [predicate false], failures <= 1, check count == 1 (0 for a passing CHECK_COMPARE). Infinitely distant operands (opposite infinities, infinity vs finite) are judged as the statement reads: they differ by +inf, which is no more than a tolerance of +inf (must pass) and more than any finite tolerance (must fail). Not judged (counted as *_unjudged): negative/NaN tolerance, '
          '|a-b| rounding onto the tolerance, NULL operands of the contains checks, NULL vs non-NULL at STRNCMP length 0. '
          'Non-trivial = operand pair on a class boundary: integers equal at a type edge/outside int range, or differing by <= 2 or by a multiple of 256; doubles with inf/NaN/signed zeros or distance within [tol/2, 2 tol] or adjacent; '
          'strings with NULL/""/case-only difference/proper prefix/length at or inside the common prefix; blocks with NULL/size 0/difference at first or last byte or only beyond the size; bit pairs differing in one bit, zero masks, differences masked out; '
          'relational operands equal/adjacent/unordered; every table entry of the boolean/throw/pointer-null tables. Distinct by (check, operands).',
     floor=dict(quick=40000, thorough=150000),
-    counter_floor=dict(quick={'observed_pass': 30000, 'observed_fail': 100000}, thorough={'observed_pass': 100000, 'observed_fail': 300000}),
+    counter_floor=dict(quick={'observed_pass': 30000, 'observed_fail': 100000, 'infinite_tolerance_judged': 450, 'infinite_tolerance_opposite_infinities_judged': 10, 'infinite_tolerance_infinite_vs_finite_judged': 150, 'doubles_equal_fn:true': 1000},
+                       thorough={'observed_pass': 100000, 'observed_fail': 300000, 'infinite_tolerance_judged': 450, 'infinite_tolerance_opposite_infinities_judged': 10, 'infinite_tolerance_infinite_vs_finite_judged': 150, 'doubles_equal_fn:true': 1000}),
     assumptions=['LP64 (long = 64 bit), char signed', 'case-insensitive means ASCII case folding (bytes >= 0x80 compare exactly)',
                  'operands are generated inside the parameter type of each check (conversions done by the caller, e.g. a 64-bit value passed to CHECK_EQUAL_C_BITS or LONGS_EQUAL, are outside the check)',
-                 'doubles: negative or NaN tolerances, infinitely distant operands under an infinite tolerance, and distances whose rounded value equals the tolerance while the exact value does not, are executed but their verdict is not judged'],
+                 'doubles: negative or NaN tolerances, and distances whose rounded value equals the tolerance while the exact value does not, are executed but their verdict is not judged',
+                 'doubles: "differ by no more than the tolerance" is read in the extended reals (|(+inf) - (-inf)| = |inf - finite| = +inf <= +inf): under an infinite tolerance every pair of non-NaN operands is equal'],
 )
